@@ -24,6 +24,7 @@ def run(ctx, broken):
     budget = 150 if ctx.tier == "quick" else 8064
     lines = r.emit("emitv", entries, ctx.seed, budget)
     lines += shifted_openings(ctx, lines)
+    lines += unbound_key_commitments(ctx, lines)
     r.run(lines)
     st = r.report()
     st["rule"] = ("honest V3 proofs of %d circuits (arithmetic with public inputs, near-miss variants, gadgets, curve points, full "
